@@ -13,9 +13,11 @@
      no_panic o           o is Ok or Err (not Panic, and the model's fuel did not run out) *)
 From Coq Require Import String.
 From Coq Require Import List NArith ZArith Bool.
+From SNT Require Import Surface.Bounds Surface.Shape Surface.ShapeProofs
+  Render.CellLayout Render.Writer Render.WriterFrame View.ViewModel View.LayoutProofs.
 From SNT Require Import Base.Outcome Keys.KeyParse Keys.KeyParseProofs Keys.KeyParseRoundTrip
   Encoder.Base64 Serde.Json Serde.ImageDe Serde.ImageProofs Serde.FaceStr Serde.FaceProofs
-  Serde.ViewDe Serde.ViewProofs Surface.Bounds Surface.Shape Surface.ShapeProofs Serde.ImageCrop.
+  Serde.ViewDe Serde.ViewProofs Serde.ImageCrop Serde.ViewTree.
 Import ListNotations.
 Local Open Scope N_scope.
 
@@ -30,6 +32,12 @@ Proof. exact face_roundtrip. Qed.
 Theorem C19_face_json : forall (o : str -> option rgba) (f : face),
   face_ok f = true -> face_de_json o (face_ser f) = Ok f.
 Proof. intros o f H. exact (face_roundtrip o f H). Qed.
+
+(* "parses back to the same face" for the faces the crate's own parser produces: every accepted string,
+   every colour oracle returning byte colours *)
+Theorem C19_face_parsed : forall (o : str -> option rgba), oracle_ok o ->
+  forall (s : str) (f : face), face_parse o s = Ok f -> face_parse o (face_print f) = Ok f.
+Proof. intros o Ho s f. exact (face_parsed_roundtrip o s f Ho). Qed.
 
 (* ---- sizes *)
 Theorem C19_size : forall h w : N,
@@ -53,7 +61,7 @@ Proof. exact image_roundtrip. Qed.
 (* cropped views: the image value of any chain of view operations on an H x W pixel vector (its pixels are
    the cells of the window, Surface/Shape.v `iter`, C07) round-trips *)
 Theorem C19_image_cropped : forall (H W : nat) (ops : list vop) (data : list rgba),
-  (Z.of_nat (Nat.max H W) <= i64_max)%Z ->
+  (Z.of_nat (Nat.max H W) <= Bounds.i64_max)%Z ->
   forallb op_in ops = true ->
   (H * W <= List.length data)%nat ->
   forallb rgba_okb data = true ->
@@ -103,6 +111,30 @@ Theorem C19_view_total : forall (orc : N -> json -> bool) (frgba : str -> option
   no_panic (view_de_kind orc frgba k j).
 Proof. exact view_de_kind_total. Qed.
 
+(* ---- "any view tree that deserialises successfully can be laid out and rendered".
+   view_tree is the same deserialiser (Serde/ViewDe.v view_gen) building the view tree of the C10 model
+   instead of (): text -> VText, flex -> VFlex, container -> VContainer, glyph -> VGlyph, image -> VImage,
+   tag -> VTag, ref -> VNone, trace-layout -> the inner view; the node contents (cells, faces, alignments,
+   flex factors, margins, ids) are arbitrary functions K of the JSON nodes. *)
+
+(* every accepted document has such a view tree, unless it contains an image_ascii view (Err 100): that
+   kind is not in the C10 model and stays checked on the implementation only *)
+Theorem C19_view_tree_covers_partial :
+  forall (orc : N -> json -> bool) (frgba : str -> option rgba) (K : content) (k : vkind) (j : json),
+    view_de_kind orc frgba k j = Ok tt ->
+    (exists v, view_tree orc frgba K k j = Ok v) \/ view_tree orc frgba K k j = Err 100.
+Proof. exact view_tree_covers. Qed.
+
+(* and that view tree lays out under every valid constraint and renders into every surface cut out of a
+   canvas: no panic, no InvalidLayout, nothing outside the surface touched (C10_total) *)
+Theorem C19_view_layout_render :
+  forall (orc : N -> json -> bool) (frgba : str -> option rgba) (K : content) (k : vkind) (j : json) (v : vtree),
+    view_tree orc frgba K k j = Ok v ->
+    forall (H W : nat) (vc : vctx) (c : ct) (sh : shape) (w : window) (s : rst),
+      (Z.of_nat (Nat.max H W) <= Bounds.i64_max)%Z -> Valid c -> Rep H W sh w -> (H * W <= List.length (r_data s))%nat ->
+      exists t s', layout vc v c = Ok t /\ render vc v t sh s = Ok s' /\ Frame sh (r_data s) (r_data s').
+Proof. exact view_tree_layout_render. Qed.
+
 (* ---- statement pins *)
 Check C19_image_roundtrip : forall img : image, image_ok img -> image_de (image_ser img) = Ok img.
 Check C19_image_total : forall j : json, no_panic (image_de j).
@@ -143,6 +175,31 @@ Example C19_face_example :
   /\ face_parse (fun _ => None) (s2l " fg = #FF0000 ,, bold ")
      = Ok {| f_fg := Some (255, 0, 0, 255); f_bg := None; f_attrs := 8 |}.
 Proof. vm_compute. repeat split; reflexivity. Qed.
+
+(* the defect found in the follow-up round: with `|=` as a plain OR of the bits (the code as it was) two
+   underline names give the code 6, which prints as no underline and does not parse back *)
+Example C19_face_orig_refuted :
+  exists s f, face_parse_orig (fun _ => None) s = Ok f
+              /\ face_parse_orig (fun _ => None) (face_print f) <> Ok f
+              /\ face_parse (fun _ => None) s = Ok {| f_fg := None; f_bg := None; f_attrs := 4 |}.
+Proof.
+  exists (s2l "underline_double,underline_dotted"), {| f_fg := None; f_bg := None; f_attrs := 6 |}.
+  split; [vm_compute; reflexivity|]. split; [vm_compute; discriminate | vm_compute; reflexivity].
+Qed.
+
+Example C19_size_chord_example :
+  de_size (ser_size (3, 18446744073709551615)) = Some (3, 18446744073709551615)
+  /\ chord_de_json ascii_lower (chord_ser [Key (KChar 120) 4; Key (KF 12) 0]) = Ok [Key (KChar 120) 4; Key (KF 12) 0]
+  /\ parse_chord ascii_lower (s2l "Ctrl+X F12") = Ok [Key (KChar 120) 4; Key (KF 12) 0].
+Proof. vm_compute. repeat split; reflexivity. Qed.
+
+(* a 3x3 pixel vector cropped to rows 1.., columns ..2 *)
+Example C19_image_cropped_example :
+  let data := map (fun i => (i, i, i, 255)) [0; 1; 2; 3; 4; 5; 6; 7; 8] in
+  let sh := apply_chain (of_size 3 3) [OpView (From 1) (To 2)] in
+  view_image sh data = {| i_h := 2; i_w := 2; i_pix := [(3, 3, 3, 255); (4, 4, 4, 255); (6, 6, 6, 255); (7, 7, 7, 255)] |}
+  /\ image_de (image_ser (view_image sh data)) = Ok (view_image sh data).
+Proof. vm_compute. split; reflexivity. Qed.
 
 Example C19_view_example :
   let text := JObj [(s2l "type", JStr (s2l "text")); (s2l "text", JArr [JStr (s2l "a"); JObj [(s2l "face", JStr (s2l "bold")); (s2l "text", JStr (s2l "b"))]])] in
